@@ -79,6 +79,8 @@ pub struct Profile {
     pub w: OpW,
     /// concurrent cache: follow every recording op with `sync()`
     pub sync_every_op: bool,
+    /// concurrent cache: do so in about half of the cases
+    pub sync_every_op_some: bool,
     /// concurrent cache: no expiry and no invalidate_all (C12/C13 domain)
     pub sync_plain: bool,
     pub burst_sizes: Vec<u32>,
@@ -95,6 +97,7 @@ pub fn profile_for(prop: &str, thorough: bool) -> Profile {
         max_ops: if thorough { 160 } else { 50 },
         w: OpW::default(),
         sync_every_op: false,
+        sync_every_op_some: false,
         sync_plain: false,
         burst_sizes: vec![],
         drop_unsynced: false,
@@ -164,6 +167,7 @@ pub fn profile_for(prop: &str, thorough: bool) -> Profile {
             p.w.enter_beyond = 7;
         }
         "C11" => {
+            p.sync_every_op_some = true;
             p.drop_unsynced = true;
             p.w.invalidate = 10;
             p.w.enter_beyond = 7;
@@ -387,7 +391,7 @@ fn build_case(p: &Profile, rc: RawCfg, raw_ops: Vec<RawOp>) -> Case {
     };
 
     let mut ops: Vec<Op> = Vec::new();
-    let every = p.sync_every_op && kind == Kind::Sync;
+    let every = (p.sync_every_op || (p.sync_every_op_some && rc.cap_slack % 2 == 0)) && kind == Kind::Sync;
     let push = |ops: &mut Vec<Op>, op: Op| {
         let rec = matches!(op, Op::Insert { .. } | Op::Get { .. } | Op::Invalidate { .. });
         ops.push(op);
